@@ -748,6 +748,28 @@ fn c13(idx: usize, ctx: &Ctx, rpt: &mut Report) {
         rpt.bucket_n("observer-calls", seen.len() as u64);
     }
     rpt.bucket_n("events-observed", ran.obs.events.len() as u64);
+    if walkrun::syscall_markers_enabled() {
+        // Expectations for the independent syscall-level monitor (strace tier).
+        let discarded: Vec<String> = ran
+            .sim
+            .td
+            .iter()
+            .map(|d| if d.is_empty() { ran.start.clone() } else { ran.start.join(d) })
+            .map(|p| p.to_string_lossy().to_string())
+            .collect();
+        let read_dirs: Vec<String> = ran
+            .sim
+            .read
+            .iter()
+            .filter(|e| e.descends && !ran.sim.td.contains(&e.rel))
+            .map(|e| e.path.to_string_lossy().to_string())
+            .collect();
+        let line = json!({"pid": std::process::id(), "seq": walkrun::last_walk_seq(), "case_index": idx, "discarded": discarded, "read_dirs": read_dirs});
+        use std::io::Write;
+        if let Ok(mut f) = std::fs::OpenOptions::new().create(true).append(true).open(Path::new(&ctx.scratch).join("syscall-expectations.jsonl")) {
+            let _ = writeln!(f, "{}", line);
+        }
+    }
     if ran.sim.tree_verdicts_on_non_directories > 0 {
         rpt.bucket("tree-verdict-on-a-non-directory");
     }
